@@ -530,6 +530,7 @@ Inductive cmd :=
 | YankCy | YankPop | SetMark | CopyRegion | FwdChar | BackChar | Bol | Eol
 | SelfInsert (c : Z) | CtrlG | YankCxry | CutCxrk
 | SetCursor (v : Z)                       (* buffer.cursor_position = v, no key *)
+| Cpr                                     (* a cursor position report arrives (Keys.CPRResponse) *)
 | ViX | ViBigX | ViD | ViDD | ViYY | ViP | ViBigP
 | ViPasteReg (r : Z) (before : bool)
 | ViVisual (orig ty key r : Z).
@@ -539,7 +540,7 @@ Definition cmd_id (c : cmd) : Z :=
   | KillLine => 1 | KillWordMd => 2 | KillWordCDel => 3 | CtrlW => 4 | MetaBackspace => 5
   | CtrlU => 6 | YankCy => 7 | YankPop => 8 | SetMark => 9 | CopyRegion => 10
   | FwdChar => 11 | BackChar => 12 | Bol => 13 | Eol => 14 | SelfInsert _ => 15 | CtrlG => 16
-  | YankCxry => 17 | CutCxrk => 18 | SetCursor _ => 19
+  | YankCxry => 17 | CutCxrk => 18 | SetCursor _ => 19 | Cpr => 21
   | ViX => 31 | ViBigX => 32 | ViD => 33 | ViDD => 34 | ViYY => 35 | ViP => 36 | ViBigP => 37
   | ViPasteReg _ b => if b then 39 else 38
   | ViVisual _ _ k _ => 40 + k
@@ -587,6 +588,7 @@ Definition exec (s : st) (c : cmd) (arg : Z) (rep : bool) : out :=
   | SelfInsert ch => self_insert_cmd s ch arg
   | CtrlG => ok (with_sel s None)
   | SetCursor v => ok (move_to s v)
+  | Cpr => ok s
   | ViX => vi_x s arg
   | ViBigX => vi_X s arg
   | ViD => vi_D s
@@ -601,6 +603,10 @@ Definition exec (s : st) (c : cmd) (arg : Z) (rep : bool) : out :=
 Definition step (s : st) (c : cmd) (argp : option Z) : out :=
   match c with
   | SetCursor v => ok (move_to s v)             (* not a key: previous handler unchanged *)
+  (* KeyProcessor._handle_cpr_response: the report goes straight to its binding;
+     text, ring, the pending argument and the "previous handler" (is_repeat) are
+     left alone, in every mode and state *)
+  | Cpr => ok s
   | _ =>
     if negb (Bool.eqb (svi s) (is_vi_cmd c)) then (E_UNMODELLED, s)
     else if has_sel s && insert_only c then (E_UNMODELLED, s)
@@ -635,10 +641,23 @@ Definition dec_clip (x : sx) : option clip :=
   | _ => None
   end.
 
+(* the argument field: () | (n) | (n f) | (() f); f tells the harness where
+   cursor position reports are slipped in among the keys of this command
+   (bit 0: between the argument keys and the command, bit 1: after the first
+   key of the command); a report changes nothing, so the model ignores f *)
+Definition dec_arg (x : sx) : option (option Z) :=
+  match x with
+  | L [] => Some None
+  | L [A n] => Some (Some n)
+  | L [A n; A _] => Some (Some n)
+  | L [L []; A _] => Some None
+  | _ => None
+  end.
+
 Definition dec_cmd (x : sx) : option (cmd * option Z) :=
   match x with
   | L (A code :: argx :: rest) =>
-      match as_opt as_Z argx with
+      match dec_arg argx with
       | None => None
       | Some argp =>
           let r c := Some (c, argp) in
@@ -651,6 +670,7 @@ Definition dec_cmd (x : sx) : option (cmd * option Z) :=
           | 15, [A ch] => r (SelfInsert ch)
           | 16, [] => r CtrlG | 17, [] => r YankCxry | 18, [] => r CutCxrk
           | 19, [A v] => r (SetCursor v)
+          | 21, [] => r Cpr
           | 31, [] => r ViX | 32, [] => r ViBigX | 33, [] => r ViD | 34, [] => r ViDD
           | 35, [] => r ViYY | 36, [] => r ViP | 37, [] => r ViBigP
           | 38, [A rg] => r (ViPasteReg rg false)
